@@ -28,6 +28,9 @@ type msg struct {
 	// reader completion
 	data []byte
 	cl   int64
+	// part gates of the reader session
+	id string
+	ok bool
 }
 
 // sched owns the gates of the collector goroutine and of the reader session.
@@ -41,10 +44,12 @@ type sched struct {
 	gcExt     []partstore.PartId // external list of the last condemn transaction
 	free      bool               // no gating at all (stress mode)
 
-	rdCh     chan msg
-	rdRel    chan struct{}
-	rdActive bool // a reader session is open: ungated contexts park at part gates
+	rdCh       chan msg
+	rdRel      chan struct{}
+	rdActive   bool   // a reader session is open: ungated contexts park at part gates
 	lastRdGate string // op that continues the parked session: RdOpen | RdRead
+	rdGateID   string // part id at the gate the session is parked at
+	lastOpened *msg   // what the part store answered to the last released open
 
 	slowCh     chan msg      // slow put goroutine -> driver
 	slowRel    chan struct{} // driver -> slow put
@@ -52,7 +57,7 @@ type sched struct {
 }
 
 func newSched() *sched {
-	return &sched{gcCh: make(chan msg, 16), gcRel: make(chan struct{}), rdCh: make(chan msg, 16), rdRel: make(chan struct{}),
+	return &sched{gcCh: make(chan msg, 16), gcRel: make(chan struct{}), rdCh: make(chan msg, 64), rdRel: make(chan struct{}),
 		slowCh: make(chan msg, 4), slowRel: make(chan struct{})}
 }
 
@@ -148,6 +153,7 @@ func (g *gateStore) Stop(ctx context.Context) error  { return g.inner.Stop(ctx) 
 func (g *gateStore) Capabilities() partstore.Capabilities {
 	return partstore.CapabilitiesOf(g.inner)
 }
+
 // PutPart parks the slow put (marked context) before the part's bytes are
 // written: the part id is minted and the write transaction is open.
 func (g *gateStore) PutPart(ctx context.Context, tx database.Tx, id partstore.PartId, r io.Reader) error {
@@ -187,26 +193,30 @@ func (g *gateStore) DeletePart(ctx context.Context, tx database.Tx, id partstore
 func (g *gateStore) GetPart(ctx context.Context, tx database.Tx, id partstore.PartId) (io.ReadCloser, error) {
 	gated := !g.sc.free && ctx.Value(driverKey) == nil && g.sc.rdActive
 	if gated {
-		g.sc.rdCh <- msg{gate: "open", kv: []any{id.String()}}
+		g.sc.rdCh <- msg{gate: "open", id: id.String()}
 		<-g.sc.rdRel
 	}
 	rc, err := g.inner.GetPart(ctx, tx, id)
+	if gated {
+		g.sc.rdCh <- msg{gate: "opened", id: id.String(), ok: err == nil} // not a gate: the store's answer
+	}
 	if err != nil || !gated {
 		return rc, err
 	}
-	return &gateReader{rc: rc, sc: g.sc}, nil
+	return &gateReader{rc: rc, sc: g.sc, id: id.String()}, nil
 }
 
 type gateReader struct {
 	rc     io.ReadCloser
 	sc     *sched
+	id     string
 	parked bool
 }
 
 func (r *gateReader) Read(p []byte) (int, error) {
 	if !r.parked {
 		r.parked = true
-		r.sc.rdCh <- msg{gate: "read"}
+		r.sc.rdCh <- msg{gate: "read", id: r.id}
 		<-r.sc.rdRel
 	}
 	return r.rc.Read(p)
@@ -283,19 +293,25 @@ func (s *sched) rdStart(e *env, mode, k string) *reader {
 	return r
 }
 
-// rdWait waits for the reader session's next gate / completion.
+// rdWait waits for the reader session's next gate / completion.  The session
+// may open and read its parts in any order; the driver only follows it.
 func (s *sched) rdWait() msg {
-	select {
-	case m := <-s.rdCh:
-		switch m.gate {
-		case "open":
-			s.lastRdGate = "RdOpen"
-		case "read":
-			s.lastRdGate = "RdRead"
+	for {
+		select {
+		case m := <-s.rdCh:
+			switch m.gate {
+			case "opened":
+				mm := m
+				s.lastOpened = &mm
+				continue
+			case "open":
+				s.lastRdGate, s.rdGateID = "RdOpen", m.id
+			case "read":
+				s.lastRdGate, s.rdGateID = "RdRead", m.id
+			}
+			return m
+		case <-time.After(stepTimeout):
+			die("reader did not reach its next gate within %v", stepTimeout)
 		}
-		return m
-	case <-time.After(stepTimeout):
-		die("reader did not reach its next gate within %v", stepTimeout)
 	}
-	panic("unreachable")
 }
